@@ -223,14 +223,20 @@ func coqLspReq(r lspReq) string {
 func (c *Ctx) lspCase(texts []string, hist []lspReq, group string) {
 	obs, short, panicked := runLspHistory(texts, hist)
 	var ts, hs []string
+	used := map[string]string{}
 	for _, t := range texts {
 		pr := parser.Parse(t)
-		ts = append(ts, fmt.Sprintf("(%s, %s)", dumpProgram(pr.Value), coqParseDiags(pr)))
+		tree := dumpProgram(pr.Value)
+		if e, ok := expectedOf[t]; ok && len(pr.Errors) == 0 {
+			tree = e // what the text means: the generator's tree with the printer's ranges
+			used[t] = e
+		}
+		ts = append(ts, fmt.Sprintf("(%s, %s)", tree, coqParseDiags(pr)))
 	}
 	for i, r := range hist {
 		hs = append(hs, fmt.Sprintf("(%s, %s)", coqLspReq(r), obs[i]))
 	}
-	ci := &CaseInfo{Kind: "c19case", FailAt: -1, Extra: map[string]any{"texts": texts, "history": hist, "group": group}}
+	ci := &CaseInfo{Kind: "c19case", FailAt: -1, Extra: map[string]any{"texts": texts, "history": hist, "group": group, "expected_trees": used}}
 	ci.Class = "ok"
 	if panicked {
 		ci.Class = "panic"
@@ -242,6 +248,9 @@ func (c *Ctx) lspCase(texts []string, hist []lspReq, group string) {
 	ci.Coq = fmt.Sprintf("(mk_c19case %s %s)", coqList(ts), coqList(hs))
 	c.add(ci)
 }
+
+// expectedOf: the generator's own tree of a text printed from a generated program without token edits
+var expectedOf = map[string]string{}
 
 func smallScript(r *Rand, valid bool) string {
 	cfg := baseCfg()
@@ -260,10 +269,15 @@ func smallScript(r *Rand, valid bool) string {
 	p := &Printer{}
 	p.program(prog)
 	toks := p.Toks
+	edited := false
 	if !valid && r.Chance(1, 2) {
 		toks, _ = mutateTokens(toks, r)
+		edited = true
 	}
-	text, _ := Render(toks, r.Intn(2), r)
+	text, pos := Render(toks, r.Intn(2), r)
+	if !edited {
+		expectedOf[text] = gd{pos}.program(prog)
+	}
 	return text
 }
 
@@ -279,6 +293,13 @@ func init() {
 			var hist []lspReq
 			b, _ := json.Marshal(c.replay.Extra["history"])
 			json.Unmarshal(b, &hist)
+			if m, ok := c.replay.Extra["expected_trees"].(map[string]any); ok {
+				for t, e := range m {
+					if es, ok := e.(string); ok {
+						expectedOf[t] = es
+					}
+				}
+			}
 			c.lspCase(texts, hist, "replay")
 			return
 		}
